@@ -1,8 +1,8 @@
 (* C12 - concrete objects with explicit ID->position caches, and cache-free abstract tables.
 
-   Anchors: haptools/data/genotypes.py (Genotypes.index / subset / read / check_* with
+   Anchors: haptools/data/genotypes.py (Genotypes.index / subset / read / check_missing|biallelic|maf with
    discard, _samp_idx / _var_idx), haptools/transform.py (GenotypesAncestry.subset /
-   check_*), haptools/data/phenotypes.py (Phenotypes.index / subset / read / check_missing
+   check_missing|biallelic), haptools/data/phenotypes.py (Phenotypes.index / subset / read / check_missing
    / append, _samp_idx / _name_idx), haptools/data/haplotypes.py (Haplotypes.index / read /
    subset / sort / transform, type_ids), haptools/data/data.py (Data.read).
 
@@ -146,9 +146,6 @@ Section TwoIndex.
     end.
 End TwoIndex.
 
-Arguments Keep {tab}.
-Arguments Reset {tab}.
-Arguments Push {tab} x.
 Arguments Mut {tab} f.
 Arguments Sub {tab} r1 r2 inplace.
 Arguments Index {tab} b1 b2.
@@ -208,7 +205,7 @@ Section Geno.
   | GCheckBiallelic                       (* discard_also=True *)
   | GCheckMaf (th : T).                   (* discard_also=True *)
 
-  Definition flag (changed : bool) : act (tab := gtab) := if changed then Reset else Keep.
+  Definition flag (changed : bool) : act := if changed then Reset else Keep.
   Definition of_qout (q : qout) (t : gtab) : gtab := match q with QOk t' => t' | QRaise _ _ => t end.
   Definition nonempty {A} (l : list A) : bool := match l with [] => false | _ => true end.
 
@@ -294,11 +291,13 @@ Section Pheno.
     | PSubset ss ns i => Sub ss ns i
     | PIndex s n => Index s n
     | PCheckMissing =>
+        (* only when np.any(missing): delete the rows, self._samp_idx = None *)
         Mut (fun t =>
           let bad := map row_missing (p_rows t) in
-          Ok (mkp (filter_mask (map negb bad) (p_samples t)) (p_names t)
-                  (filter_mask (map negb bad) (p_rows t)),
-              (if existsb (fun b => b) bad then Reset else Keep), Keep))
+          if existsb (fun b => b) bad then
+            Ok (mkp (filter_mask (map negb bad) (p_samples t)) (p_names t)
+                    (filter_mask (map negb bad) (p_rows t)), Reset, Keep)
+          else Ok (t, Keep, Keep))
     | PAppend name col =>
         (* np.concatenate raises ValueError when the column has the wrong length *)
         Mut (fun t =>
@@ -360,11 +359,21 @@ Section Haps.
   | HTransform.                    (* transform(): index(); [data[h] for h in type_ids["H"]] *)
 
   (* what a step shows: contents afterwards, and a result (subset copy / haplotypes transformed) *)
-  Inductive hout := HNone | HCopy (d : list hrec) | HHaps (l : list hrec).
+  Inductive hout := HNone | HCopy (d : list hrec) | HHaps (l : list Z).
 
-  (* subset(): data = {id: data[id] for id in haplotypes if present}; index(force=True) *)
-  Definition hsubset (ids : list Z) (d : list hrec) : list hrec :=
-    flat_map (fun x => match hfind x d with Some r => [r] | None => [] end) ids.
+  (* subset(): data = {}; for id in haplotypes: data[id] = self.data[id] unless KeyError
+     (a dict: a repeated request keeps its first position); index(force=True) *)
+  Fixpoint hsubset_from (seen ids : list Z) (d : list hrec) : list hrec :=
+    match ids with
+    | [] => []
+    | x :: r =>
+        if memZ x seen then hsubset_from seen r d
+        else match hfind x d with
+             | Some rec => rec :: hsubset_from (x :: seen) r d
+             | None => hsubset_from seen r d
+             end
+    end.
+  Definition hsubset (ids : list Z) (d : list hrec) : list hrec := hsubset_from [] ids d.
 
   Definition hindex (force : bool) (o : hobj) : hobj :=
     match ho_tids o with
@@ -385,7 +394,7 @@ Section Haps.
     | HIndex => Ok (hindex false o, HNone)
     | HTransform =>
         let o' := hindex false o in
-        bind (map_res (fun x => match hfind x (ho_data o') with Some r => Ok r | None => Err E_Key end)
+        bind (map_res (fun x => match hfind x (ho_data o') with Some r => Ok (h_id r) | None => Err E_Key end)
                       (fst (match ho_tids o' with Some t => t | None => ([], []) end)))
              (fun l => Ok (o', HHaps l))
     end.
@@ -397,7 +406,7 @@ Section Haps.
         if inplace then Ok (hsubset ids d, HNone) else Ok (d, HCopy (hsubset ids d))
     | HSort => Ok (hsort d, HNone)
     | HIndex => Ok (d, HNone)
-    | HTransform => Ok (d, HHaps (filter h_is_hap d))
+    | HTransform => Ok (d, HHaps (map h_id (filter h_is_hap d)))
     end.
 
   Fixpoint hm_run (o : hobj) (ops : list hop) : list (res (list hrec * hout)) :=
